@@ -305,6 +305,9 @@ func c07Sched(c *fw.Ctx) {
 		if st.Deadlines > 0 {
 			c.HarnessError("C07 %s: %d executions hit the watchdog (first at schedule %v)", off.Name, st.Deadlines, st.DeadlineAt)
 		}
+		if st.WarmStart {
+			c.Count("warm_start_scenarios", 1)
+		}
 		if st.Nondeterministic {
 			c.HarnessError("C07 %s: replaying the default schedule gave a different execution", off.Name)
 		}
